@@ -235,6 +235,25 @@ fn edits(schema: &Schema, doc: &Document) -> Vec<Edit> {
                             nd.defs.push(Definition::Frag(Fragment { name: frag_name, on: schema.objects[sr].name.clone(), sel: fsel }));
                         }
                         out.push(Edit { rule: Rule::SubscriptionMultipleRootsViaSpread, doc: nd, at: format!("def#{} two root fields through a spread", di), depth: 1, in_fragment: false, parent_kind: "object" });
+                        // ... and where the second root field hides behind a fragment that an earlier,
+                        // valid subscription of the same document already spread
+                        let mut nd = doc.clone();
+                        let tn = schema.objects[sr].name.clone();
+                        let mut first_sel = Vec::new();
+                        let mut vars = Vec::new();
+                        if let Definition::Op(o2) = &mut nd.defs[di] {
+                            first_sel = o2.sel.clone();
+                            vars = o2.vars.clone();
+                            o2.sel = vec![Selection::Spread("ZzOuter".into())];
+                        }
+                        nd.defs.push(Definition::Frag(Fragment { name: "ZzShared".into(), on: tn.clone(), sel: first_sel }));
+                        nd.defs.push(Definition::Frag(Fragment {
+                            name: "ZzOuter".into(),
+                            on: tn.clone(),
+                            sel: vec![Selection::Field(FieldSel { alias: Some("zzSecond".into()), name: extra.name.clone(), args: vec![], sel: vec![] }), Selection::Spread("ZzShared".into())],
+                        }));
+                        nd.defs.insert(0, Definition::Op(Operation { kind: OpKind::Subscription, name: Some("ZzEarlierSubscription".into()), shorthand: false, vars, sel: vec![Selection::Spread("ZzShared".into())] }));
+                        out.push(Edit { rule: Rule::SubscriptionMultipleRootsViaSpread, doc: nd, at: format!("def#{} two root fields through nested spreads shared with an earlier subscription", di + 1), depth: 1, in_fragment: false, parent_kind: "object" });
                     }
                 }
             }
